@@ -211,7 +211,7 @@ STALL_S = 90          # a process that answers nothing for this long (no byte of
 MAX_HANGS = 3         # after that many operations of one shard that never return, the rest of the shard is not run ("unanswered")
 
 
-def _run_once(binary, lines, timeout):
+def _run_once(binary, lines, timeout, stall=None):
     """one process; returns (answers, status) with status in ok|died|timeout|stalled; answers may be shorter than lines.
     The harness flushes its answers at least every 20 ms of work, so when nothing at all arrives for STALL_S seconds the
     operation after the last complete answer is the one that does not return."""
@@ -235,7 +235,7 @@ def _run_once(binary, lines, timeout):
                 last_size, last_change = size, now
             if now - t0 > timeout:
                 status = "timeout"
-            elif now - last_change > STALL_S and "harness" in os.path.basename(binary):
+            elif now - last_change > (stall or STALL_S) and "harness" in os.path.basename(binary):
                 status = "stalled"
             if status != "ok":
                 p.kill()
@@ -254,14 +254,19 @@ def _run_once(binary, lines, timeout):
         return out, status
 
 
+HANGS_SEEN = {"n": 0}      # operations that did not return, over the whole check run
+
+
 def _run_shard(binary, lines, timeout):
     """answers for all lines; an operation that kills the process is answered `died`, one that does not return `hang`;
-    after MAX_HANGS such operations the remaining ones of the shard are answered `unanswered` (not run)."""
+    after MAX_HANGS such operations the remaining ones of the shard are answered `unanswered` (not run). Once a check run has
+    met hangs, later batches give up after the first one per shard and wait less long for it."""
     answers = []
     rest = lines
     hangs = 0
     while rest:
-        out, status = _run_once(binary, rest, timeout)
+        impatient = HANGS_SEEN["n"] >= MAX_HANGS
+        out, status = _run_once(binary, rest, timeout, stall=30 if impatient else STALL_S)
         if status == "ok":
             return answers + out
         # the process flushes complete answers only; the operation after the last answer is the culprit. A process that was
@@ -270,14 +275,16 @@ def _run_shard(binary, lines, timeout):
         answers += done
         culprit = rest[len(done)]
         # make sure it is this operation alone (and not lost buffered answers): run it in a process of its own
-        one, st1 = _run_once(binary, [culprit], min(timeout, STALL_S + 15))
+        one, st1 = _run_once(binary, [culprit], min(timeout, (30 if impatient else STALL_S) + 15), stall=30 if impatient else STALL_S)
         if st1 == "ok" and len(one) == 1:
             answers.append(one[0])
         else:
             answers.append("died" if st1 == "died" else "hang")
             hangs += 1
+            if st1 != "died":
+                HANGS_SEEN["n"] += 1
         rest = rest[len(done) + 1:]
-        if hangs >= MAX_HANGS and rest:
+        if (hangs >= MAX_HANGS or (impatient and hangs >= 1)) and rest:
             return answers + ["unanswered"] * len(rest)
     return answers
 
